@@ -399,17 +399,20 @@ type c03scaleGen struct {
 var c03scaleTails = []string{"x := 1\nx", "x := \"\\400\"", "x /;", "x := undefinedName", "y := 0; x := 1/y", "func f() int { y := 0; return 1/y }; func g() int { return f() }; g()", "var m map[string]int; m[\"k\"] = 1", "panic(\"p\")"}
 var c03padKinds = []string{"newlines", "spaces", "block-comment", "line-comment", "crlf", "tabs", "semicolons"}
 var c03bigKinds = []string{"paren", "block", "slicetype", "literal", "locals", "globals", "stmts", "args", "ident", "string", "rawstring", "digits", "params", "fields", "methods", "mapentries", "results", "funcs", "returns-of", "sprint-args", "string-concat-run"}
-var c03quadKinds = []string{"call", "chain", "neg", "else", "not", "and-chain", "deref", "closure-nest", "index-nest", "index-chain", "select-chain", "if-else-if", "cases", "compl", "ptr-type"}
+var c03quadKinds = []string{"opassign-nest", "call", "chain", "neg", "else", "not", "and-chain", "deref", "closure-nest", "index-nest", "index-chain", "select-chain", "if-else-if", "cases", "compl", "ptr-type"}
 
 // runaway and very deep recursion: run without the harness's depth and step budgets, so that it is goatlang itself
 // that has to stop (the Go runtime kills the process at a 1 GB stack, which no recover catches)
-var c03recurseKinds = []string{"recurse-self", "recurse-counted", "recurse-mutual", "recurse-method", "recurse-variadic", "recurse-value", "recurse-main", "recurse-f-args", "recurse-locals"}
+var c03recurseKinds = []string{"recurse-sort", "recurse-sort-stable", "recurse-self", "recurse-counted", "recurse-mutual", "recurse-method", "recurse-variadic", "recurse-value", "recurse-main", "recurse-f-args", "recurse-locals"}
 
 func (g c03scaleGen) recursion() bool { return strings.HasPrefix(g.Kind, "recurse-") }
 
 func (g c03scaleGen) source() string {
 	n := g.N
 	switch g.Kind {
+	case "recurse-sort", "recurse-sort-stable": // through a native callback: every Func call starts a fresh VM value
+		fn := map[string]string{"recurse-sort": "SortFunc", "recurse-sort-stable": "SortStableFunc"}[g.Kind]
+		return "import \"golang.org/x/exp/slices\"\nfunc r(n int) int {\n\ts := []int{2, 1}\n\tslices." + fn + "(s, func(a, b int) bool {\n\t\tr(n + 1)\n\t\treturn a < b\n\t})\n\treturn n\n}\nr(0)"
 	case "recurse-self":
 		return "func r() {\n\tr()\n}\nr()"
 	case "recurse-counted":
@@ -549,6 +552,10 @@ func (g c03scaleGen) source() string {
 		return "func f(a int) int { return a }\nx := " + rep("f(", n) + "1" + rep(")", n) + "\nx"
 	case "chain":
 		return "x := 1" + rep(" + 1", n) + "\nx"
+	case "opassign-nest": // a statement where an operand should be: not Go, but it parses; every level once, not twice
+		return "a := []int{0}\n" + rep("a[", n) + "0" + rep("]++", n)
+	case "const-chain": // the const group copies its expressions (implicit repetition): a recursive copy of a left-deep tree
+		return "const (\n\tA = 1" + rep("+1", n) + "\n)\nA"
 	case "neg":
 		return "x := " + rep("- ", n) + "1\nx"
 	case "not":
@@ -623,6 +630,7 @@ func c03scaleSpace(thorough bool) c03space {
 	for _, k := range []string{"not", "neg", "compl", "deref", "ptr-type", "slicetype", "paren", "block"} {
 		deep = append(deep, c03scaleGen{k, 1 << 22, 0})
 	}
+	deep = append(deep, c03scaleGen{"const-chain", 1 << 24, 0}, c03scaleGen{"const-chain", 1 << 17, 0}, c03scaleGen{"chain", 1 << 24, 0})
 	for _, k := range c03recurseKinds {
 		ns := []int{0}
 		if k == "recurse-counted" || k == "recurse-locals" { // terminating: below, around and beyond any plausible limit
